@@ -60,7 +60,20 @@ def dump(crate):
         raise RuntimeError("MIR dump of %s failed (see %s.err)" % (crate, out))
     _dumped[crate] = out
     _index[crate] = parse.index_functions(out)
+    load_consts(out)
     return out
+
+
+def load_consts(path):
+    """`const NAME: u8 = const 3_u8;` items of the dump -> engine.NAMED_CONSTS"""
+    from .mir import engine
+    pat = re.compile(r"^const ([\w:<>]+): (\w+) = const (\S+);$")
+    with open(path, errors="replace") as f:
+        for line in f:
+            if line.startswith("const "):
+                m = pat.match(line.rstrip("\n"))
+                if m:
+                    engine.NAMED_CONSTS[m.group(1).split("::")[-1]] = m.group(3)
 
 
 def get_fn(crate, suffix, sig=None):
